@@ -316,6 +316,11 @@ class Generator:
                 j = rng.randint(-L, L - 1)
                 cj = "in"
             ix = ["tup", ["int", i], ["int", j]]
+            if self.P["oob_bias"] and rng.random() < 0.06:
+                # far out of range, as numpy integers: congruent to a valid index modulo 2**32
+                w = rng.choice([2 ** 32, -2 ** 32, 2 ** 33, 2 ** 40])
+                ix = ["tup", ["npint", i + (w if rng.random() < 0.3 else 0)], ["npint", j + w]]
+                cj = "huge"
             cls = f"ij:{ci}{cj}"
         elif form == "lists":
             rows = [r for r in range(n) if lens[r] > 0]
@@ -326,8 +331,14 @@ class Generator:
             cs = [rng.randint(0, lens[r] - 1) for r in rs]
             if rng.random() < 0.3:
                 cs = [c - lens[r] for r, c in zip(rs, cs)]
-            ix = ["tup", ["list", rs], ["list", cs]]
+            kind = rng.choice(["list", "list", "arr"])
             cls = "lists"
+            if self.P["oob_bias"] and rng.random() < 0.08:
+                kind = "arr"
+                q = rng.randrange(len(cs))
+                cs[q] = cs[q] + rng.choice([2 ** 32, -2 ** 32, 2 ** 33, 2 ** 40])
+                cls = "lists:huge"
+            ix = ["tup", [kind, rs], [kind, cs]]
         elif form == "rows_j":
             if n and max(lens) > 0 and rng.random() < 0.75:
                 # rows long enough for column j (so that the read is accepted), as list / mask / slice
